@@ -135,8 +135,10 @@ var propTable = map[string]propInfo{
 		Level: "other",
 		Explanation: commonMethod + "Partial: every verified postcondition that fixes an output exactly makes that output a function of the inputs; the places where Go's " +
 			"map iteration order could leak are covered where under contract: TallyVotes counts are order-free, campaign sends in sorted id order (loop invariants over the " +
-			"sorted slice), JointConfig.IDs / CommittedIndex / VoteResult are proved for an arbitrary enumeration order, and callers of ProgressTracker.Visit are verified " +
-			"against a sorted-order iteration. Visit's own body (which establishes that order) and lockedRand are assumed contracts, so a change inside Visit is not detected.",
+			"sorted slice), JointConfig.IDs / CommittedIndex / VoteResult are proved for an arbitrary enumeration order, callers of ProgressTracker.Visit are verified " +
+			"against an ascending-key iteration, and Visit's own body is verified against that promise with a ghost log of its callback invocations (exactly len(map) calls, strictly " +
+			"ascending keys, each with the map's current value; the callback is arbitrary code). The only randomness, lockedRand.Intn, is an assumed contract (result in [0, n)). " +
+			"That equal inputs give equal outputs for whole Ready structs is not decided (RawNode is not under contract).",
 	},
 	"C20": {
 		Level: "other",
